@@ -31,6 +31,7 @@ func C17(r *core.Run) {
 	provNoReorder(r)
 	provEnumNumbers(r)
 	entityPathKeys(r, info)
+	pathVariablesPerSegment(r)
 	// the key markers (primary, foreign, tenant) are independent: each is emitted whatever the others are
 	attributeIndependence(r, "sym_sites", "*")
 	// what is generated for one declared command service / event / summary does not depend on the one before it
